@@ -136,3 +136,11 @@ Definition ok_emb (f : list call) (orecs : list seen5) : bool := mforest f 0 ore
 (* C05 stage 2: -F / -N / -D / -t with depth= and time= trigger actions against [sel2] *)
 Definition ok_sel2 (tgl : list (N * strig)) (fm : bool) (gd thr : N) (f : list call) (orecs : list seen5) : bool :=
   list_eqb seen_eqb orecs (map ideal (flat_map (sel2 (assoc notrig2 tgl) (x02 fm gd thr) 0) f)).
+
+(* append-only stream (C02_stream_append_only): the stream of a shorter run is a list prefix of the longer run's *)
+Fixpoint prefix5 (l1 l2 : list seen5) : bool :=
+  match l1, l2 with
+  | [], _ => true
+  | x :: r1, y :: r2 => seen_eqb x y && prefix5 r1 r2
+  | _ :: _, [] => false
+  end.
